@@ -11,7 +11,6 @@
 package c08
 
 import (
-	"crypto/sha256"
 	"crypto/x509"
 	"encoding/pem"
 	"encoding/base64"
@@ -19,6 +18,7 @@ import (
 	"fmt"
 	"net/http"
 	"net/url"
+	"os"
 	"slices"
 	"sort"
 	"strings"
@@ -26,6 +26,7 @@ import (
 	"time"
 
 	jose "github.com/go-jose/go-jose/v4"
+	"golang.org/x/text/language"
 
 	"github.com/zitadel/oidc/v3/pkg/crypto"
 	"github.com/zitadel/oidc/v3/pkg/oidc"
@@ -56,7 +57,14 @@ type family struct {
 	user    string
 	public  bool // owner has no secret (auth method none)
 	jwtAuth bool // owner authenticates with private_key_jwt
+	postAuth bool // owner is registered for client_secret_post
 	host    int  // dynamic-issuer parts: index of the host (= issuer) the session was created under
+	scope   string // scopes the session asks for ("" = openid profile email offline_access)
+	grant   string // how the tokens are obtained: "" = authorization code, "cc", "device", "jwtbearer", "exchange"
+	// colon: the subject contains ':'. The library packs an opaque access token as "<id>:<subject>" and
+	// takes it apart with strings.Split, so whether such a token is honoured at all is left open while it
+	// is live (the statement only says when a token must NOT be honoured); everything else is demanded.
+	colon bool
 	at      string
 	rt      string
 	idt     string
@@ -94,6 +102,8 @@ type tok struct {
 	// Flipped IV bytes garble the whole first plaintext block, so which flips fall into this class depends on the
 	// random IV of the run; the class is computed from the actual string, the verdicts are deterministic.
 	emptyID bool
+	// lite: near-miss string (one edit away from something the provider compares); goes through one request per endpoint
+	lite bool
 }
 
 type world struct {
@@ -117,6 +127,8 @@ type world struct {
 	// client assertions (private_key_jwt), one per client and clock bucket, signed up front
 	assertions map[string][]string
 	last       int // index of last clock bucket
+	users      map[string]*refstore.User
+	clients    map[string]*refstore.Client
 }
 
 const (
@@ -133,6 +145,10 @@ func newCfg() *refstore.Config {
 		RespTypes: []oidc.ResponseType{oidc.ResponseTypeCode},
 		Grants:    []oidc.GrantType{oidc.GrantTypeCode, oidc.GrantTypeRefreshToken}}
 	cfg.Clients["webjwt"].IDTLifetime = idtLifeShort
+	// the service account may also authenticate at the introspection / revocation endpoints (it owns its client_credentials tokens)
+	cfg.Clients["svc"] = &refstore.Client{ID: "svc", Secret: "secret-svc", AppType: op.ApplicationTypeWeb, Method: oidc.AuthMethodBasic}
+	// a user whose id contains the separator the library uses inside opaque access tokens
+	cfg.Users[colonUser] = &refstore.User{ID: colonUser, Username: "carol", Given: "Carol", Family: "Colon", Email: "carol@example.com", EmailVerified: true, Locale: language.English}
 	return cfg
 }
 
@@ -187,10 +203,21 @@ func b64(b []byte) string { return base64.RawURLEncoding.EncodeToString(b) }
 
 var familyCatalog = map[string]family{
 	"web":    {name: "web", client: "web", user: "u1"},                 // opaque access tokens, tampering alphabet
-	"webjwt": {name: "webjwt", client: "webjwt", user: "u1"},           // JWT access tokens, forged-JWT alphabet
-	"pub":    {name: "pub", client: "pub", user: "u1", public: true},   // public owner (auth method none)
+	"webjwt": {name: "webjwt", client: "webjwt", user: "u1", scope: "openid profile offline_access"},         // JWT access tokens, forged-JWT alphabet; no email scope
+	"pub":    {name: "pub", client: "pub", user: "u1", public: true, scope: "openid email offline_access"}, // public owner (auth method none); no profile scope
 	"webu2":  {name: "webu2", client: "web", user: "u2"},               // same client as web, other user
 	"jwtc":   {name: "jwtc", client: "jwt", user: "u2", jwtAuth: true}, // owner authenticates with private_key_jwt
+	// part owners: one owner per registered authentication method, two sessions of one (client, user) pair
+	"pc": {name: "pc", client: "post", user: "u1", postAuth: true, scope: "openid email offline_access"}, // client_secret_post owner
+	"jc": {name: "jc", client: "jwt", user: "u2", jwtAuth: true, scope: "openid profile offline_access"}, // private_key_jwt owner
+	"wa": {name: "wa", client: "web", user: "u1"},                                                       // client_secret_basic owner, first session
+	"wb": {name: "wb", client: "web", user: "u1", scope: "openid offline_access"},                       // second session of the same user and client
+	// part grants: access tokens of the other grants
+	"cc": {name: "cc", client: "svc", user: "svc", grant: "cc", scope: "openid"},                                    // client_credentials (service account, opaque)
+	"dv": {name: "dv", client: "webjwt", user: "u2", grant: "device", scope: "openid email offline_access"},         // device grant (JWT access token, refresh token, id token)
+	"bj": {name: "bj", client: "jwt", user: "jwt", grant: "jwtbearer", jwtAuth: true, scope: "openid"},              // jwt-bearer (JWT profile) grant, opaque
+	"xd": {name: "xd", client: "webjwt", user: "u1", grant: "exchange", scope: "openid profile"},                    // derived by token exchange (JWT access token + refresh token)
+	"cs": {name: "cs", client: "web", user: "u:3", colon: true, scope: "openid email offline_access"},               // subject containing the separator of the opaque token plaintext
 	// dynamic-issuer parts: the host the session is created under is its issuer
 	"ja": {name: "ja", client: "webjwt", user: "u1", host: 0}, // JWT access tokens, issuer of host 0
 	"jb": {name: "jb", client: "webjwt", user: "u2", host: 1}, // JWT access tokens, issuer of host 1
@@ -224,7 +251,7 @@ func jwtPayload(tok string) (map[string]any, []byte, bool) {
 }
 
 func build(t *testing.T, c *engine.Check, thorough bool, pt part) *world {
-	w := &world{byName: map[string]*tok{}, dyn: pt.dyn, via: pt.via, hosts: []string{"a.example", "b.example"}}
+	w := &world{byName: map[string]*tok{}, dyn: pt.dyn, via: pt.via, hosts: []string{"a.example", "b.example"}, users: newCfg().Users, clients: newCfg().Clients}
 	famNames, refreshable := pt.fams, pt.refreshable
 	for _, n := range famNames {
 		f := familyCatalog[n]
@@ -249,54 +276,16 @@ func build(t *testing.T, c *engine.Check, thorough bool, pt part) *world {
 	for _, at := range w.clocks {
 		w.assertions["jwt"] = append(w.assertions["jwt"], mkAssertion("jwt", "p256b", "jk2", jose.ES256, at))
 		w.assertions["api"] = append(w.assertions["api"], mkAssertion("api", "rsa3", "ak1", jose.RS256, at))
+		// well-formed assertions naming the client and its key id, signed by somebody else's key
+		w.assertions["jwt-bad"] = append(w.assertions["jwt-bad"], mkAssertion("jwt", "p256c", "jk2", jose.ES256, at))
+		w.assertions["api-bad"] = append(w.assertions["api-bad"], mkAssertion("api", "rsa4", "ak1", jose.RS256, at))
 	}
 	r := w.newRig()
 	var fail string
+	everyFam := append(slices.Clone(w.fams), w.aux)
 	pan := engine.Bubble(t, 0, func() {
-		for _, f := range append(slices.Clone(w.fams), w.aux) {
-			verifier := "verifier-0123456789-0123456789-0123456789-0123456789"
-			sum := sha256.Sum256([]byte(verifier))
-			redirect := r.Core.Cfg.Clients[f.client].Redirects[0]
-			// authorize -> login -> callback, every request addressed to the family's host
-			ar := r.Do(0, w.req(f.host, "GET", "/authorize", url.Values{"client_id": {f.client}, "redirect_uri": {redirect},
-				"response_type": {"code"}, "scope": {"openid profile email offline_access"}, "state": {"st"}, "nonce": {"n-1"},
-				"code_challenge": {b64(sum[:])}, "code_challenge_method": {"S256"}}, nil))
-			id := ""
-			if u := ar.Location(); ar.Status/100 == 3 && u != nil && strings.HasPrefix(u.Path, "/login") {
-				id = u.Query().Get("authRequestID")
-			}
-			if id == "" || r.Core.Login(id, f.user) != nil {
-				fail = fmt.Sprintf("prefix: no login redirect for %s: %d %s", f.name, ar.Status, ar.Body)
-				return
-			}
-			cb := r.Do(0, w.req(f.host, "GET", "/authorize/callback", url.Values{"id": {id}}, nil))
-			code := ""
-			if u := cb.Location(); u != nil {
-				code = u.Query().Get("code")
-			}
-			if code == "" {
-				fail = fmt.Sprintf("prefix: no code for %s: %d %s", f.name, cb.Status, cb.Body)
-				return
-			}
-			form := url.Values{"grant_type": {"authorization_code"}, "code": {code}, "code_verifier": {verifier}, "redirect_uri": {redirect}}
-			hdr := map[string]string{}
-			cl := r.Core.Cfg.Clients[f.client]
-			switch {
-			case f.jwtAuth:
-				form.Set("client_assertion_type", oidc.ClientAssertionTypeJWTAssertion)
-				form.Set("client_assertion", mkAssertion(f.client, "p256b", "jk2", jose.ES256, 0))
-			case cl.Method == oidc.AuthMethodBasic:
-				hdr["Authorization"] = rig.Basic(f.client, cl.Secret)
-			case cl.Method == oidc.AuthMethodPost:
-				form.Set("client_id", f.client)
-				form.Set("client_secret", cl.Secret)
-			default:
-				form.Set("client_id", f.client)
-			}
-			tr := r.Do(0, w.req(f.host, "POST", "/oauth/token", form, hdr))
-			f.at, f.rt, f.idt = tr.Str("access_token"), tr.Str("refresh_token"), tr.Str("id_token")
-			if tr.Status != 200 || f.at == "" || f.rt == "" || f.idt == "" {
-				fail = fmt.Sprintf("prefix: token response for %s: %d %s", f.name, tr.Status, tr.Body)
+		for _, f := range everyFam {
+			if fail = w.issue(r, f, func(client string) string { return mkAssertion(client, "p256b", "jk2", jose.ES256, 0) }); fail != "" {
 				return
 			}
 		}
@@ -305,7 +294,10 @@ func build(t *testing.T, c *engine.Check, thorough bool, pt part) *world {
 		c.Internal("prefix failed: " + pan + fail)
 		return nil
 	}
-	for _, f := range append(slices.Clone(w.fams), w.aux) {
+	for _, f := range everyFam {
+		if f.idt == "" {
+			continue
+		}
 		claims, _, ok := jwtPayload(f.idt)
 		exp, _ := claims["exp"].(float64)
 		if !ok || claims["iss"] != w.issuer(f.host) || claims["sub"] != f.user || exp == 0 {
@@ -323,22 +315,41 @@ func build(t *testing.T, c *engine.Check, thorough bool, pt part) *world {
 		}
 	}
 	st := r.Core.St.Clone()
-	for _, f := range append(slices.Clone(w.fams), w.aux) {
-		for id, tk := range st.Tokens {
-			if tk.ClientID == f.client && tk.Subject == f.user {
-				f.atID = id
-				f.rtID = tk.Refresh
-				// storage policy: the resource server "api" is in the audience of every access token
-				tk.Audience = append(tk.Audience, "api")
-			}
-		}
-		if f.atID == "" || st.Refreshes[f.rtID] == nil || f.rt != f.rtID {
-			c.Internal("prefix: cannot locate tokens of " + f.name)
+	for _, f := range everyFam {
+		// the tokens of a family are located through the access token string (two sessions may share client and user)
+		f.atID = tokenIDOf(f.at)
+		tk := st.Tokens[f.atID]
+		if tk == nil || tk.ClientID != f.client || tk.Subject != f.user {
+			c.Internal(fmt.Sprintf("prefix: cannot locate the access token of %s (id %q)", f.name, f.atID))
 			return nil
 		}
+		// storage policy: the resource server "api" is in the audience of every access token, and so is the client it was issued to
+		tk.Audience = append(tk.Audience, "api")
+		if !slices.Contains(tk.Audience, f.client) {
+			tk.Audience = append(tk.Audience, f.client)
+		}
 		w.ats = append(w.ats, f.atID)
-		w.rts = append(w.rts, f.rtID)
+		if f.rt != "" {
+			f.rtID = f.rt
+			if rf := st.Refreshes[f.rtID]; rf == nil || tk.Refresh != f.rtID || rf.Access != f.atID {
+				c.Internal("prefix: cannot locate the refresh token of " + f.name)
+				return nil
+			}
+			w.rts = append(w.rts, f.rtID)
+		}
 	}
+	for id := range st.Tokens { // tokens of helper flows (the subject token an exchange-derived family was made from)
+		if !slices.Contains(w.ats, id) {
+			delete(st.Tokens, id)
+		}
+	}
+	for id := range st.Refreshes {
+		if !slices.Contains(w.rts, id) {
+			delete(st.Refreshes, id)
+		}
+	}
+	st.Devices = map[string]*refstore.Device{}
+	st.UserCodes = map[string]string{}
 	for i, f := range w.fams {
 		f.refreshable = slices.Contains(refreshable, f.name)
 		if f.refreshable {
@@ -376,9 +387,13 @@ func build(t *testing.T, c *engine.Check, thorough bool, pt part) *world {
 		}
 		add(f.name+".at", atKind, f.at, i, genAT, "")
 		w.byName[f.name+".at"].id = f.atID
-		add(f.name+".rt", "rt", f.rt, i, genRT, "")
-		w.byName[f.name+".rt"].id, w.byName[f.name+".rt"].pairAT = f.rtID, f.atID
-		add(f.name+".idt", "idt", f.idt, i, genIDT, "")
+		if f.rt != "" {
+			add(f.name+".rt", "rt", f.rt, i, genRT, "")
+			w.byName[f.name+".rt"].id, w.byName[f.name+".rt"].pairAT = f.rtID, f.atID
+		}
+		if f.idt != "" {
+			add(f.name+".idt", "idt", f.idt, i, genIDT, "")
+		}
 		if f.refreshable {
 			add(f.name+".at2", atKind, "", i, genAT, "issued by refresh")
 			add(f.name+".rt2", "rt", "", i, genRT, "issued by refresh")
@@ -423,6 +438,11 @@ func build(t *testing.T, c *engine.Check, thorough bool, pt part) *world {
 			add("web.wrongsub", "sealed-wrong-subject", seal(f.atID+":u2", cryptoKey), i, genNone, "live id, other subject, right key")
 			add("web.nocolon", "sealed-malformed", seal(f.atID, cryptoKey), i, genNone, "id only")
 			add("web.3parts", "sealed-malformed", seal(f.atID+":"+f.user+":x", cryptoKey), i, genNone, "three parts")
+			// near-miss plaintexts: every single edit of "<live id>:<its subject>" the generators produce, sealed under the right key
+			for _, nm := range nearMissPlain(f.atID, f.user) {
+				add("web.nm-"+nm.name, "sealed-nearmiss", seal(nm.s, cryptoKey), i, genNone, "plaintext "+fmt.Sprintf("%q", nm.s)+": "+nm.note)
+				w.byName["web.nm-"+nm.name].lite = true
+			}
 		case f.name == "webjwt" || f.name == "ja":
 			full := f.name == "webjwt" // the dynamic-issuer parts carry a few representatives only
 			parts := strings.Split(f.at, ".")
@@ -483,6 +503,26 @@ func build(t *testing.T, c *engine.Check, thorough bool, pt part) *world {
 					add("webjwt.otherkey-otherkid", "jwt-wrong-key", keys.SignCompact(otherSig, jose.ES256, "sig-9", pl), i, genNone, "right claims, attacker key, unpublished kid")
 				}
 			}
+			if full {
+				// near-miss JWT access tokens: jti of the live token, one claim edited, signed by another key under the right key id
+				for _, e := range []struct {
+					name string
+					edit func(m map[string]any)
+				}{
+					{"sub", func(m map[string]any) { m["sub"] = "u2" }},
+					{"aud", func(m map[string]any) { m["aud"] = []string{"web2"} }},
+					{"exp", func(m map[string]any) { m["exp"] = float64(engine.Epoch.Add(240 * time.Hour).Unix()) }},
+				} {
+					add("webjwt.otherkey-"+e.name, "jwt-wrong-key", keys.SignCompact(otherSig, jose.ES256, "sig-1", variant(e.edit)), i, genNone, "live jti, "+e.name+" edited, attacker key, right kid")
+					w.byName["webjwt.otherkey-"+e.name].lite = true
+				}
+				// near-miss issuers (multi-tenant deployment sharing the signing key): every generator output except the case change of the host
+				for _, nm := range nearMissIssuer(w.issuer(f.host)) {
+					evilN := variant(func(m map[string]any) { m["iss"] = nm.s })
+					add("webjwt.iss-"+nm.name, "jwt-nearmiss-issuer", keys.SignCompact(provKey, jose.ES256, "sig-1", evilN), i, genNone, "iss "+fmt.Sprintf("%q", nm.s)+": "+nm.note)
+					w.byName["webjwt.iss-"+nm.name].lite = true
+				}
+			}
 			// forged id tokens (exchange subject / actor of type id_token, id_token_hint)
 			idc, idpl, _ := jwtPayload(f.idt)
 			idparts := strings.Split(f.idt, ".")
@@ -495,6 +535,14 @@ func build(t *testing.T, c *engine.Check, thorough bool, pt part) *world {
 				idLonger := variantOf(idc, func(m map[string]any) { m["exp"] = float64(engine.Epoch.Add(240 * time.Hour).Unix()) })
 				add("webjwt.idt-edited", "idt-edited-payload", idparts[0]+"."+b64(idLonger)+"."+idparts[2], i, genNone, "id token, exp extended, original signature")
 				add("webjwt.idt-algnone", "idt-alg-none", b64([]byte(`{"alg":"none","typ":"JWT","kid":"sig-1"}`))+"."+idparts[1]+".", i, genNone, "unsigned id token")
+				// expired AND forged: an id_token_hint may be honoured although expired, never although forged
+				add("webjwt.idt-expired-otherkey", "idt-expired-wrong-key", keys.SignCompact(otherSig, jose.ES256, "sig-1", idPast), i, genNone, "id token claims with exp in the past, attacker key, same kid")
+				w.byName["webjwt.idt-expired-otherkey"].lite = true
+				for _, nm := range nearMissIssuer(w.issuer(f.host)) {
+					idN := variantOf(idc, func(m map[string]any) { m["iss"] = nm.s })
+					add("webjwt.idt-iss-"+nm.name, "idt-nearmiss-issuer", keys.SignCompact(provKey, jose.ES256, "sig-1", idN), i, genNone, "id token, iss "+fmt.Sprintf("%q", nm.s)+": "+nm.note)
+					w.byName["webjwt.idt-iss-"+nm.name].lite = true
+				}
 			}
 		}
 	}
@@ -532,12 +580,24 @@ func build(t *testing.T, c *engine.Check, thorough bool, pt part) *world {
 
 	// operation alphabet
 	w.ops1 = map[string][]string{}
-	uiChannels := []string{"hdr", "form", "hdr-lc", "query", "basic+form"}
-	inCallers := []string{"owner", "api", "apipost", "apiassert", "nonaud", "unauth", "badsecret"}
+	uiChannels := []string{"hdr", "form", "hdr-lc", "hdr-uc", "query", "basic+form"}
+	uiPrimed := []string{"hdr", "form"} // the same request after the provider object answered for other tokens
+	inCallers := []string{"owner", "api", "apipost", "apiassert", "nonaud", "nonaudassert", "unauth", "pubself", "badsecret", "apibadassert"}
+	inPrimed := []string{"api", "nonaud"}
 	rvBy := []string{"owner", "ownerpost", "foreign", "spoof", "foreignpost", "public", "assert", "claim"}
+	rvByUnauth := []string{"anon", "badbasic", "badpost", "badassert"} // nobody authenticated: with hint none (thorough: every well-formed hint)
 	rvHints := []string{"none", "access_token", "refresh_token", "bogus"}
+	// further members of the hint enum: a registered token type name the endpoint does not revoke, the parameter
+	// present but empty, the two supported values in another case; quick: by owner and by another client, thorough: every caller
+	rvHintsMore := []string{"id_token", "empty", "uc-access", "uc-refresh"}
+	rvByMore := []string{"owner", "foreign"}
+	rvUnauthHints := []string{"none"}
+	if thorough {
+		rvByMore = rvBy
+		rvUnauthHints = []string{"none", "access_token", "refresh_token"}
+	}
 	exTypes := []string{"access_token", "refresh_token", "id_token"}
-	esForms := []string{"hint", "hint+cid", "cid-only"}
+	esForms := []string{"hint", "hint+cid", "cid-only", "hint+othercid", "hint-post"}
 	var routerHosts []string // second field of every request operation: router, or router@host
 	for router := range rig.Routers {
 		if !w.dyn {
@@ -557,6 +617,7 @@ func build(t *testing.T, c *engine.Check, thorough bool, pt part) *world {
 		rvBy = []string{"owner", "foreign"}
 		rvHints = []string{"none", "access_token"}
 		esForms = []string{"hint"}
+		uiPrimed, inPrimed, rvByUnauth, rvHintsMore = nil, nil, nil, nil
 	}
 	for _, R := range routerHosts {
 		for _, tk := range w.toks {
@@ -565,9 +626,26 @@ func build(t *testing.T, c *engine.Check, thorough bool, pt part) *world {
 				l := w.ops1[w.fams[tk.fam].name]
 				all = &l
 			}
+			own := w.owner(tk)
+			jwtish := strings.HasPrefix(tk.kind, "jwt-") || strings.HasPrefix(tk.kind, "idt-") || tk.kind == "idt"
+			if tk.lite {
+				// near-miss strings differ from their neighbours in one character of what the provider compares:
+				// one request per endpoint, owner and another client at revocation
+				*all = append(*all, strings.Join([]string{"ui", R, tk.name, "hdr"}, "|"), strings.Join([]string{"in", R, tk.name, "api"}, "|"),
+					strings.Join([]string{"rv", R, tk.name, "owner", "none"}, "|"), strings.Join([]string{"rv", R, tk.name, "foreign", "none"}, "|"),
+					strings.Join([]string{"ex", R, tk.name, "subject", "access_token", "rtt-at"}, "|"))
+				if jwtish {
+					*all = append(*all, strings.Join([]string{"ex", R, tk.name, "subject", "id_token", "rtt-at"}, "|"),
+						strings.Join([]string{"ex", R, tk.name, "actor", "id_token", "rtt-at"}, "|"), strings.Join([]string{"esx", R, tk.name}, "|"))
+				}
+				continue
+			}
 			// the per-byte bit flips of the opaque token are not JWTs and differ from each other only in what they
 			// decrypt to: they go through the two named userinfo channels and the two native exchange types only
 			bulk := tk.kind == "at-flip"
+			// the enum members added for callers / hints / primed histories: quick presents them with what was issued
+			// (live or dead by the time of the request) and with garbage, thorough with every string of the alphabet
+			more := !bulk && (thorough || tk.genuine != genNone || tk.fam < 0)
 			for _, ch := range uiChannels {
 				if bulk && ch != "hdr" && ch != "form" {
 					continue
@@ -575,24 +653,64 @@ func build(t *testing.T, c *engine.Check, thorough bool, pt part) *world {
 				*all = append(*all, strings.Join([]string{"ui", R, tk.name, ch}, "|"))
 			}
 			for _, caller := range inCallers {
-				if caller == "owner" && w.owner(tk).public {
+				if caller == "owner" && own.public {
 					continue // a public client cannot authenticate at the introspection endpoint
+				}
+				if caller == "nonaudassert" && own.client == "jwt" {
+					continue // the asserting client is the owner
+				}
+				if !more && (caller == "nonaudassert" || caller == "pubself" || caller == "apibadassert") {
+					continue
 				}
 				*all = append(*all, strings.Join([]string{"in", R, tk.name, caller}, "|"))
 			}
+			if more {
+				for _, ch := range uiPrimed {
+					*all = append(*all, strings.Join([]string{"ui", R, tk.name, ch}, "|")+"~p")
+				}
+				for _, caller := range inPrimed {
+					*all = append(*all, strings.Join([]string{"in", R, tk.name, caller}, "|")+"~p")
+				}
+			}
+			skipBy := func(by string) bool {
+				switch {
+				case by == "claim" && own.public:
+					return true // for a public owner this is the legitimate way to authenticate (= owner)
+				case (by == "ownerpost" || by == "badbasic" || by == "badpost") && (own.public || own.jwtAuth):
+					return true // no secret to post / to get wrong
+				case by == "ownerpost" && own.postAuth:
+					return true // the registered method of this owner (= owner)
+				case by == "assert" && own.client == "jwt":
+					return true // the asserting client is the owner
+				case by == "badassert" && !own.jwtAuth:
+					return true
+				}
+				return false
+			}
 			for _, by := range rvBy {
-				own := w.owner(tk)
-				if by == "claim" && own.public {
-					continue // for a public owner this is the legitimate way to authenticate (= owner)
-				}
-				if by == "ownerpost" && (own.public || own.jwtAuth) {
-					continue // no secret to post
-				}
-				if by == "assert" && own.jwtAuth {
-					continue // the asserting client is the owner
+				if skipBy(by) {
+					continue
 				}
 				for _, hint := range rvHints {
 					*all = append(*all, strings.Join([]string{"rv", R, tk.name, by, hint}, "|"))
+				}
+			}
+			if more {
+				for _, by := range rvByMore {
+					if skipBy(by) {
+						continue
+					}
+					for _, hint := range rvHintsMore {
+						*all = append(*all, strings.Join([]string{"rv", R, tk.name, by, hint}, "|"))
+					}
+				}
+				for _, by := range rvByUnauth {
+					if skipBy(by) {
+						continue
+					}
+					for _, hint := range rvUnauthHints {
+						*all = append(*all, strings.Join([]string{"rv", R, tk.name, by, hint}, "|"))
+					}
 				}
 			}
 			for _, role := range []string{"subject", "actor"} {
@@ -614,11 +732,19 @@ func build(t *testing.T, c *engine.Check, thorough bool, pt part) *world {
 					}
 				}
 			}
+			// end_session with a string that is not the family's id token as id_token_hint: forged / foreign /
+			// expired-and-forged id tokens, JWT access tokens, garbage
+			if !w.dyn && tk.gen == 0 && ((jwtish && tk.genuine != genIDT) || tk.kind == "jwt-at" || tk.name == "g.garbagetxt") {
+				*all = append(*all, strings.Join([]string{"esx", R, tk.name}, "|"))
+			}
 			if tk.gen == 1 {
 				w.ops1[w.fams[tk.fam].name] = *all
 			}
 		}
 		for _, f := range w.fams {
+			if f.idt == "" {
+				continue // grants without an id token: nothing to log out with
+			}
 			for _, ef := range esForms {
 				w.ops = append(w.ops, strings.Join([]string{"es", R, f.name, ef}, "|"))
 			}
@@ -867,7 +993,7 @@ func (w *world) classAt(s S, tk *tok, h int) string {
 }
 
 func openClass(class string) bool { // classes the statement leaves open at userinfo / introspection
-	return class == "live-rt" || class == "live-idt" || class == "xhost-live-at" || class == "xhost-live-rt"
+	return class == "live-rt" || class == "live-idt" || class == "xhost-live-at" || class == "xhost-live-rt" || class == "colon-live-at"
 }
 
 func (w *world) tokClass(tk *tok, st *refstore.State, now time.Time) string {
@@ -879,6 +1005,9 @@ func (w *world) tokClass(tk *tok, st *refstore.State, now time.Time) string {
 		return "dead-idt"
 	case genAT:
 		if liveAT(st, tk.id, now) {
+			if w.owner(tk).colon && tk.kind == "opaque-at" {
+				return "colon-live-at" // "<id>:<subject with a colon>": whether the library can take it apart is left open
+			}
 			return "live-at"
 		}
 		return "dead-at"
@@ -936,8 +1065,21 @@ func short(b []byte) string {
 func (w *world) newStep(t *testing.T) func(int) func(S, string) (S, engine.Result) {
 	return func(int) func(S, string) (S, engine.Result) {
 		if !w.dyn {
+			// One provider object per worker serves the unprimed operations. What such an object remembers from the
+			// requests it happened to serve before must not decide a verdict: a violation candidate is re-judged on a
+			// provider object without history and that verdict is the one reported (on the unchanged tree the two agree).
+			// Primed operations ("~p") always run on a provider of their own: the priming requests, then the judged one.
 			r := w.newRig()
-			return func(s S, opl string) (S, engine.Result) { return w.exec(t, r, s, opl) }
+			return func(s S, opl string) (S, engine.Result) {
+				if strings.HasSuffix(opl, "~p") {
+					return w.exec(t, w.newRig(), s, opl)
+				}
+				post, res := w.exec(t, r, s, opl)
+				if res.Sig != "" {
+					return w.exec(t, w.newRig(), s, opl)
+				}
+				return post, res
+			}
 		}
 		return func(s S, opl string) (S, engine.Result) {
 			r := w.newRig() // fresh provider, then the history that led to s, then the judged request
@@ -995,7 +1137,11 @@ func (w *world) primedExec(t *testing.T, r *rig.Rig, s S, opl string) (S, engine
 
 // exec runs one operation on the provider of r from state s and judges it.
 func (w *world) exec(t *testing.T, r *rig.Rig, s S, opl string) (S, engine.Result) {
-	p := strings.Split(opl, "|")
+	primed := !w.dyn && strings.HasSuffix(opl, "~p")
+	p := strings.Split(strings.TrimSuffix(opl, "~p"), "|")
+	if w.dyn {
+		p = strings.Split(opl, "|")
+	}
 	next := func(n S) S { // bookkeeping of the dynamic-issuer parts
 		if w.dyn {
 			n.Path = append(slices.Clone(s.Path), opl)
@@ -1032,6 +1178,22 @@ func (w *world) exec(t *testing.T, r *rig.Rig, s S, opl string) (S, engine.Resul
 	var eff effect
 	var opKind, inClass string
 	var newHeld map[string]held
+	if primed {
+		// the provider object first answers the same kind of request for two other live tokens (the first family's
+		// and the bystander's, a different user with every scope) on a clone of the state: whatever the handler keeps
+		// between requests (response object, buffer, cache keyed by subject) is filled with their data
+		r.Core.Reset(s.St.Clone())
+		for _, primer := range []string{w.fams[0].at, w.aux.at} {
+			switch p[0] {
+			case "ui":
+				do("GET", "/userinfo", nil, map[string]string{"Authorization": "Bearer " + primer})
+			case "in":
+				do("POST", "/oauth/introspect", url.Values{"token": {primer}}, map[string]string{"Authorization": rig.Basic("api", secretOf("api"))})
+			}
+		}
+		resp = nil
+		r.Core.Reset(st)
+	}
 	switch p[0] {
 	case "rf":
 		res, eff, newHeld, opKind, inClass = w.doRefresh(s, st, p, router, host, do, &resp)
@@ -1045,8 +1207,13 @@ func (w *world) exec(t *testing.T, r *rig.Rig, s S, opl string) (S, engine.Resul
 		res, opKind, inClass = w.doExchange(s, p, router, host, do, &resp)
 	case "es":
 		res, eff, opKind, inClass = w.doEndSession(s, p, router, host, do, &resp)
+	case "esx":
+		res, eff, opKind, inClass = w.doEndSessionForged(s, p, router, host, do, &resp)
 	default:
 		return s, engine.Bad("internal", "unknown-op", "C08/internal/unknown-op", opl)
+	}
+	if primed {
+		res.Rule += "~primed"
 	}
 	w.gc(st)
 	l1 := w.liveness(st, now)
@@ -1093,6 +1260,9 @@ func (w *world) doUserinfo(s S, p []string, router, host int, do doFn, resp **ri
 	case "hdr-lc": // scheme spelled in lower case
 		canonical = false
 		do("GET", "/userinfo", nil, map[string]string{"Authorization": "bearer " + str})
+	case "hdr-uc": // scheme spelled in upper case
+		canonical = false
+		do("GET", "/userinfo", nil, map[string]string{"Authorization": "BEARER " + str})
 	case "query": // token in the query string of a GET
 		canonical = false
 		do("GET", "/userinfo", url.Values{"access_token": {str}}, nil)
@@ -1107,7 +1277,7 @@ func (w *world) doUserinfo(s S, p []string, router, host int, do doFn, resp **ri
 	}
 	out := "refused"
 	wantSub := w.owner(tk).user
-	live := class == "live-at" || class == "xhost-live-at"
+	live := class == "live-at" || class == "xhost-live-at" || class == "colon-live-at"
 	switch {
 	case rp.Panic != "":
 		out = "panic"
@@ -1118,6 +1288,10 @@ func (w *world) doUserinfo(s S, p []string, router, host int, do doFn, resp **ri
 		} else if sub, _ := m["sub"].(string); live && sub != wantSub {
 			return engine.Bad(rule, "served-wrong-subject", fmt.Sprintf("C08/userinfo-wrong-subject/%s/%s", routerName(router), group(tk)),
 				fmt.Sprintf("userinfo for the token of %s returned %s", wantSub, short(rp.Body))), "userinfo", group(tk)
+		} else if why := w.claimsBeyond(m, w.owner(tk)); live && tk.genuine == genAT && why != "" {
+			// the claims are those of the token's own session: its user, the scopes it was granted
+			return engine.Bad(rule, "served-foreign-claims", fmt.Sprintf("C08/userinfo-claims-beyond-token/%s/%s", routerName(router), group(tk)),
+				fmt.Sprintf("userinfo for %s (user %s, scopes %v): %s: %s", tk.name, wantSub, w.owner(tk).scopes(), why, short(rp.Body))), "userinfo", group(tk)
 		} else {
 			out = "served"
 		}
@@ -1157,10 +1331,15 @@ func (w *world) doIntrospect(s S, p []string, router, host int, do doFn, resp **
 	callerClass := "aud"
 	switch p[3] {
 	case "owner":
-		if own.jwtAuth {
+		switch {
+		case own.jwtAuth:
 			form.Set("client_assertion_type", oidc.ClientAssertionTypeJWTAssertion)
 			form.Set("client_assertion", w.assertions[own.client][s.Clock])
-		} else {
+		case own.postAuth: // registered for client_secret_post: which channels the introspection endpoint reads is left open (DESIGN 1.6, C05)
+			form.Set("client_id", own.client)
+			form.Set("client_secret", secretOf(own.client))
+			callerClass = "aud-either"
+		default:
 			hdr["Authorization"] = rig.Basic(own.client, secretOf(own.client))
 		}
 	case "api":
@@ -1176,6 +1355,20 @@ func (w *world) doIntrospect(s S, p []string, router, host int, do doFn, resp **
 	case "nonaud":
 		hdr["Authorization"] = rig.Basic("web2", secretOf("web2"))
 		callerClass = "nonaud"
+	case "nonaudassert": // authenticated by assertion (its registered method), not in the audience
+		form.Set("client_assertion_type", oidc.ClientAssertionTypeJWTAssertion)
+		form.Set("client_assertion", w.assertions["jwt"][s.Clock])
+		callerClass = "nonaud"
+	case "pubself": // a public client names itself: for its own tokens it is in the audience, but it proves nothing
+		form.Set("client_id", "pub")
+		if own.public {
+			form.Set("client_id", own.client)
+		}
+		callerClass = "unauth"
+	case "apibadassert": // assertion naming the resource server and its key id, signed with another key
+		form.Set("client_assertion_type", oidc.ClientAssertionTypeJWTAssertion)
+		form.Set("client_assertion", w.assertions["api-bad"][s.Clock])
+		callerClass = "unauth"
 	case "unauth":
 		form.Set("client_id", "api")
 		callerClass = "unauth"
@@ -1225,11 +1418,21 @@ func (w *world) doIntrospect(s S, p []string, router, host int, do doFn, resp **
 				return engine.Bad(rule, "active-wrong-subject", fmt.Sprintf("C08/introspect-wrong-subject/%s/%s", routerName(router), group(tk)),
 					fmt.Sprintf("introspection of the token of %s: %s", own.user, short(rp.Body))), "introspect", in
 			}
+			if why := w.claimsBeyond(m, own); why != "" {
+				return engine.Bad(rule, "active-foreign-claims", fmt.Sprintf("C08/introspect-claims-beyond-token/%s/%s", routerName(router), group(tk)),
+					fmt.Sprintf("introspection of %s (user %s, client %s, scopes %v): %s: %s", tk.name, own.user, own.client, own.scopes(), why, short(rp.Body))), "introspect", in
+			}
 		} else if out != "panic" {
 			return engine.Bad(rule, out, fmt.Sprintf("C08/introspect-inactive-live-token/%s/%s", routerName(router), in),
 				fmt.Sprintf("live access token %s introspected by %s: %d %s", tk.name, p[3], rp.Status, short(rp.Body))), "introspect", in
 		}
 	case either:
+		if out == "active" && class == "live-at" { // whichever way the caller got through: the answer describes this token
+			if why := w.claimsBeyond(rp.JSON(), own); why != "" {
+				return engine.Bad(rule, "active-foreign-claims", fmt.Sprintf("C08/introspect-claims-beyond-token/%s/%s", routerName(router), group(tk)),
+					fmt.Sprintf("introspection of %s (user %s, client %s, scopes %v): %s: %s", tk.name, own.user, own.client, own.scopes(), why, short(rp.Body))), "introspect", in
+			}
+		}
 	default:
 		if out == "active" {
 			return engine.Bad(rule, out, fmt.Sprintf("C08/introspect-active-%s/%s/%s", class, routerName(router), in),
@@ -1254,6 +1457,11 @@ func (w *world) doRevoke(s S, p []string, router, host int, do doFn, resp **rig.
 		// no effect) or, for strings the storage alone binds, the owner's token (revoked): status and effect on
 		// the target are left open, any other effect is not
 		tclass = "xhost"
+	case class == "colon-live-at":
+		// live opaque token of a subject containing ':': the provider may not be able to take the string apart, in
+		// which case it is an unknown token to it. The owner's 200 must leave it unusable (judged at the endpoints,
+		// not in the store), nobody else may change anything.
+		tclass = "colon-live"
 	case class == "live-at" || class == "live-rt":
 		tclass = "live"
 	case class == "dead-at" || class == "dead-rt":
@@ -1266,10 +1474,23 @@ func (w *world) doRevoke(s S, p []string, router, host int, do doFn, resp **rig.
 		tclass = "empty"
 	}
 	form := url.Values{"token": {w.str(s, tk)}}
+	strictHint := true // absent, empty (= absent, RFC 6749 3.1) or one of the two registered values, right or wrong for this token
 	switch hint {
 	case "none":
+	case "empty":
+		form.Set("token_type_hint", "")
 	case "bogus":
 		form.Set("token_type_hint", "bogus_type")
+		strictHint = false
+	case "id_token": // a token type name of RFC 8693, not a hint value the endpoint supports
+		form.Set("token_type_hint", "id_token")
+		strictHint = false
+	case "uc-access":
+		form.Set("token_type_hint", "ACCESS_TOKEN")
+		strictHint = false
+	case "uc-refresh":
+		form.Set("token_type_hint", "Refresh_Token")
+		strictHint = false
 	default:
 		form.Set("token_type_hint", hint)
 	}
@@ -1284,6 +1505,9 @@ func (w *world) doRevoke(s S, p []string, router, host int, do doFn, resp **rig.
 		case own.jwtAuth:
 			form.Set("client_assertion_type", oidc.ClientAssertionTypeJWTAssertion)
 			form.Set("client_assertion", w.assertions[own.client][s.Clock])
+		case own.postAuth:
+			form.Set("client_id", own.client)
+			form.Set("client_secret", secretOf(own.client))
 		default:
 			hdr["Authorization"] = rig.Basic(own.client, secretOf(own.client))
 		}
@@ -1307,11 +1531,24 @@ func (w *world) doRevoke(s S, p []string, router, host int, do doFn, resp **rig.
 	case "claim": // names the confidential owner, proves nothing
 		form.Set("client_id", own.client)
 		byClass = "unauth"
+	case "anon": // no credentials, no client_id
+		byClass = "unauth"
+	case "badbasic": // the owner's id with a wrong secret
+		hdr["Authorization"] = rig.Basic(own.client, "wrong-secret")
+		byClass = "unauth"
+	case "badpost":
+		form.Set("client_id", own.client)
+		form.Set("client_secret", "wrong-secret")
+		byClass = "unauth"
+	case "badassert": // assertion naming the owner and its key id, signed with another key
+		form.Set("client_assertion_type", oidc.ClientAssertionTypeJWTAssertion)
+		form.Set("client_assertion", w.assertions[own.client+"-bad"][s.Clock])
+		byClass = "unauth"
 	}
 	do("POST", "/revoke", form, hdr)
 	rp := *resp
 	hc := "hint"
-	if hint == "bogus" {
+	if !strictHint {
 		hc = "bogus-hint"
 	}
 	rule := "revoke-" + byClass + "-" + tclass + "-" + hc
@@ -1351,16 +1588,23 @@ func (w *world) doRevoke(s S, p []string, router, host int, do doFn, resp **rig.
 			if out == "ok" && tk.genuine != genNone {
 				target()
 			}
-			if out != "ok" && out != "panic" && hint != "bogus" {
+			if out != "ok" && out != "panic" && strictHint {
 				return bad("revoke-owner-refused", fmt.Sprintf("owner %s revoking its %s token %s (hint %s): %d %s", own.client, tclass, tk.name, hint, rp.Status, short(rp.Body)))
 			}
 		case "unknown":
-			if out != "ok" && out != "panic" && hint != "bogus" {
+			if out != "ok" && out != "panic" && strictHint {
 				return bad("revoke-unknown-not-200", fmt.Sprintf("revoking unknown token %s (%s) by %s: %d %s", tk.name, tk.note, own.client, rp.Status, short(rp.Body)))
 			}
 		case "tampered-live":
 			// the owner may revoke the token the string designates; the statement is silent
 			eff.free = []string{"A:" + tk.names}
+		case "colon-live":
+			eff.free = []string{"A:" + tk.id}
+			if out == "ok" {
+				if where := w.stillUsable(s, tk, do, resp); where != "" {
+					return bad("revoke-owner-ineffective", fmt.Sprintf("owner %s revoked %s (hint %s): 200, afterwards %s still honours the token", own.client, tk.name, hint, where))
+				}
+			}
 		}
 	case "owner-either":
 		if out == "ok" {
@@ -1372,6 +1616,14 @@ func (w *world) doRevoke(s S, p []string, router, host int, do doFn, resp **rig.
 				eff.free = []string{"A:" + tk.names}
 			}
 		}
+		if tclass == "colon-live" {
+			eff.mustDead, eff.free = nil, []string{"A:" + tk.id}
+			if out == "ok" {
+				if where := w.stillUsable(s, tk, do, resp); where != "" {
+					return bad("revoke-owner-ineffective", fmt.Sprintf("owner %s revoked %s (hint %s): 200, afterwards %s still honours the token", own.client, tk.name, hint, where))
+				}
+			}
+		}
 	case "other":
 		switch tclass {
 		case "live":
@@ -1379,7 +1631,7 @@ func (w *world) doRevoke(s S, p []string, router, host int, do doFn, resp **rig.
 				return bad("revoke-foreign-accepted", fmt.Sprintf("client (%s) that does not own %s got 200 for its revocation", by, tk.name))
 			}
 		case "unknown":
-			if out != "ok" && out != "panic" && hint != "bogus" {
+			if out != "ok" && out != "panic" && strictHint {
 				return bad("revoke-unknown-not-200", fmt.Sprintf("revoking unknown token %s (%s) by %s: %d %s", tk.name, tk.note, by, rp.Status, short(rp.Body)))
 			}
 		}
@@ -1400,7 +1652,7 @@ func (w *world) doExchange(s S, p []string, router, host int, do doFn, resp **ri
 	now := w.now(s)
 	class := w.classAt(s, tk, host)
 	caller := own.client
-	if own.public || own.jwtAuth {
+	if cl := w.init0Client(own.client); own.public || own.jwtAuth || own.postAuth || cl == nil || !slices.Contains(cl.Grants, oidc.GrantTypeTokenExchange) {
 		caller = "web" // the token endpoint's exchange grant takes Basic credentials only; who asks is not C08's subject
 	}
 	urn := "urn:ietf:params:oauth:token-type:" + tt
@@ -1443,9 +1695,10 @@ func (w *world) doExchange(s S, p []string, router, host int, do doFn, resp **ri
 	switch {
 	case match && subjectOK:
 		exp = "must-accept"
-	case class == "live-at" || class == "live-rt" || class == "live-idt" || class == "xhost-live-at" || class == "xhost-live-rt":
+	case class == "live-at" || class == "live-rt" || class == "live-idt" || class == "xhost-live-at" || class == "xhost-live-rt" || class == "colon-live-at":
 		// a live token presented under another type name, or next to an expired subject, an id token of a
-		// closed session, a live opaque string under another host of a dynamic issuer
+		// closed session, a live opaque string under another host of a dynamic issuer, a live opaque token whose
+		// subject contains the separator
 		exp = "either"
 	case role == "actor" && tk.emptyID:
 		exp = "either"
@@ -1540,20 +1793,32 @@ func (w *world) doEndSession(s S, p []string, router, host int, do doFn, resp **
 	f := w.famByName(p[2])
 	hintLive := w.now(s).Before(f.idtExp)
 	q := url.Values{"id_token_hint": {f.idt}}
-	noHint := false
-	if len(p) > 3 && p[3] == "hint+cid" {
-		q.Set("client_id", f.client)
+	noHint, mismatch, method := false, false, "GET"
+	form := "hint"
+	if len(p) > 3 {
+		form = p[3]
 	}
-	if len(p) > 3 && p[3] == "cid-only" { // names the client, identifies no user: nobody's session may end
+	switch form {
+	case "hint+cid":
+		q.Set("client_id", f.client)
+	case "cid-only": // names the client, identifies no user: nobody's session may end
 		q = url.Values{"client_id": {f.client}}
 		noHint = true
+	case "hint+othercid": // the id token of one client next to the client_id of another one that has a session too
+		q.Set("client_id", w.otherClient(f))
+		mismatch = true
+	case "hint-post": // the same parameters in the body of a POST (OIDC RP-initiated logout 1.0 section 2)
+		method = "POST"
 	}
-	do("GET", "/end_session", q, nil)
+	do(method, "/end_session", q, nil)
 	rp := *resp
 	rule := "logout-valid-hint"
 	switch {
 	case noHint:
 		rule = "logout-no-hint"
+		hintLive = false
+	case mismatch:
+		rule = "logout-mismatching-client" // refusing, or ending the session the id token names: both fine; any other session must survive
 		hintLive = false
 	case w.dyn && f.host != host:
 		rule = "logout-other-issuer-hint" // id token of another issuer: refusing and honouring are both fine
@@ -1573,17 +1838,20 @@ func (w *world) doEndSession(s S, p []string, router, host int, do doFn, resp **
 		out = fmt.Sprintf("status%dxx", rp.Status/100)
 	}
 	var eff effect
-	keysOf := []string{"A:" + f.atID, "R:" + f.rtID}
-	if f.refreshable {
-		keysOf = append(keysOf, "A:"+f.atID1, "R:"+f.rtID1)
-	}
+	keysOf := w.sessionKeys(f)
 	in := f.name
+	// the storage interface ends sessions by (user, client): what happens to another session of the same pair
+	// (second login, tokens derived for the same client by exchange) is the storage's business
+	siblings := w.siblingKeys(f)
 	if out == "redirect" {
 		if hintLive {
 			eff.mustDead = keysOf
+			eff.free = siblings
 		} else if !noHint {
-			eff.free = keysOf // expired hint: honouring or ignoring it are both fine
+			eff.free = append(keysOf, siblings...) // expired hint / mismatching client_id: honouring or ignoring the hint are both fine
 		}
+	} else if mismatch {
+		eff.free = append(keysOf, siblings...)
 	}
 	if hintLive && out != "redirect" && out != "panic" {
 		return engine.Bad(rule, out, fmt.Sprintf("C08/logout-refused/%s/%s", routerName(router), in),
@@ -1616,6 +1884,8 @@ func TestCheck(t *testing.T) {
 	parts := []part{
 		{name: "liveness", fams: []string{"web", "webjwt", "pub"}, refreshable: []string{"web"}, depth: 5},
 		{name: "dynamic-issuer", fams: []string{"ja", "jb", "oa"}, dyn: true, via: "host", depth: 3},
+		{name: "owners", fams: []string{"pc", "jc", "wa", "wb"}, depth: 3},
+		{name: "grants", fams: []string{"cc", "dv", "bj", "xd", "cs"}, depth: 3},
 	}
 	if thorough {
 		// two compositions instead of one product of five families: families interact only through a
@@ -1625,9 +1895,15 @@ func TestCheck(t *testing.T) {
 			{name: "liveness-shared-client", fams: []string{"web", "webu2", "jwtc"}, depth: 20},
 			{name: "dynamic-issuer-host-thorough", fams: []string{"ja", "jb", "oa"}, refreshable: []string{"ja"}, dyn: true, via: "host", depth: 4},
 			{name: "dynamic-issuer-forwarded-thorough", fams: []string{"ja", "jb", "oa"}, dyn: true, via: "forwarded", depth: 3},
+			{name: "owners-thorough", fams: []string{"pc", "jc", "wa", "wb"}, depth: 20},
+			{name: "grants-thorough", fams: []string{"cc", "dv", "bj", "xd", "cs"}, depth: 20},
 		}
 	}
 	alphabet := map[string]any{}
+	if only := os.Getenv("C08_ONLY_PART"); only != "" && c.ReplayFile == "" { // development aid: never a complete run
+		c.Cap("C08_ONLY_PART=" + only + ": the other parts were not explored")
+		parts = slices.DeleteFunc(parts, func(pt part) bool { return !slices.Contains(strings.Split(only, ","), pt.name) })
+	}
 	for _, pt := range parts {
 		w := build(t, c, thorough, pt)
 		if w == nil {
